@@ -3,7 +3,7 @@ import random
 from . import core
 from .common import diff_streams
 
-LEVEL = "exploration"
+LEVEL = "proof"
 
 
 def rand_table(rng, S, C, p_undef):
